@@ -471,7 +471,13 @@ class C02Award(Monitor):
                 for i in live:
                     up = list(s.get_up_cards(i))
                     try:
+                        both = [c for c in list(up) + list(bc) if c]
                         if tn == 'GreekHoldemHand' and len(up) != 2:
+                            keys[i, b, k] = '?'
+                        elif len(set(both)) != len(both):
+                            # the same card twice among a player's cards (deck too small for the
+                            # boards asked for, or an explicitly named duplicate): the rules of
+                            # poker rank hands of distinct cards only
                             keys[i, b, k] = '?'
                         else:
                             keys[i, b, k] = pyspec.best_key(tn, up, bc)
@@ -536,6 +542,7 @@ class C02Award(Monitor):
             return
         ks = {i: sn['keys'].get((i, b, k)) for i in players}
         if any(v == '?' for v in ks.values()):
+            self.pushed.setdefault((pi, b), []).append((k, sum(amts)))
             return
         have = {i: v for i, v in ks.items() if v is not None}
         if not have:
